@@ -1,13 +1,89 @@
 (* lexCode and the literal lexers never fault, terminate, keep INV and
    consume at least one byte. *)
-From Verif Require Import Bytes Utf8 Facts_lexer LexBase LexCodeM LexBase_proofs.
+From Verif Require Import Bytes Utf8 Facts_lexer LexBase LexCodeM LexBase_proofs LexTile_proofs.
 Open Scope N_scope.
 
-(* a later state, strictly further in the source *)
-Definition prog (text : bytes) (l l' : lexer) : Prop :=
-  INV text l' /\ (l_base l < l_base l' /\ l_tidx l' <= l_tidx l).
-Lemma prog_ext text l l' : prog text l l' -> ext text l l'.
+(* ---- inside a block of code: the invariant of lexCode and of the literal
+   lexers.  The lemmas of LexBase_proofs are restated with it and, below, the
+   usual names denote these versions. ---- *)
+Definition INVB (text : bytes) (l : lexer) : Prop := INV text l /\ in_block l.
+Definition extB (text : bytes) (l l' : lexer) : Prop :=
+  INVB text l' /\ (l_base l <= l_base l' /\ l_tidx l' <= l_tidx l).
+Definition progB (text : bytes) (l l' : lexer) : Prop :=
+  INVB text l' /\ (l_base l < l_base l' /\ l_tidx l' <= l_tidx l).
+Lemma progB_extB text l l' : progB text l l' -> extB text l l'.
 Proof. intros [H1 H2]. split; [exact H1|lia]. Qed.
+Lemma extB_refl text l : INVB text l -> extB text l l.
+Proof. intros H. split; [exact H|lia]. Qed.
+Lemma extB_trans text a b c : extB text a b -> extB text b c -> extB text a c.
+Proof. intros [_ H1] [H2 H3]. split; [exact H2|lia]. Qed.
+Lemma same_core_INVB text l l' : same_core l l' -> INVB text l -> INVB text l'.
+Proof. intros Hs [H1 H2]. split; [eapply same_core_INV; eauto|eapply same_core_ib; eauto]. Qed.
+Lemma INVB_len text l : INVB text l -> l_base l + len l = nlen text.
+Proof. intros [H _]. apply INV_len, H. Qed.
+Lemma advance_specB text n l :
+  INVB text l -> n <= len l ->
+  exists l', advance n l = Ok l' /\ INVB text l' /\ (l_base l' = l_base l + n /\ l_tidx l' = l_tidx l)
+             /\ l_src l' = drop n (l_src l)
+             /\ len l' = len l - n /\ l' = set_src (drop n (l_src l)) (l_base l + n) l.
+Proof.
+  intros [Hi Hb] Hn. destruct (advance_spec text n l Hi Hb Hn) as (l' & Ha & Hi' & R).
+  exists l'. split; [exact Ha|]. split; [split; [exact Hi'|eapply advance_ib; eauto]|exact R].
+Qed.
+Lemma emit_at_specB text line col cd ld typ n l :
+  INVB text l -> n <= len l -> n = 0 \/ is_close typ = false ->
+  exists l', emit_at line col cd ld typ n l = Ok l' /\ INVB text l' /\ (l_base l' = l_base l + n /\ l_tidx l' = l_tidx l - n)
+             /\ l_src l' = drop n (l_src l) /\ len l' = len l - n
+             /\ l_line l' = l_line l /\ l_col l' = l_col l /\ l_cdev l' = l_cdev l /\ l_ldev l' = l_ldev l
+             /\ l_ctx l' = l_ctx l /\ l_ctxs l' = l_ctxs l.
+Proof.
+  intros [Hi Hb] Hn Hc. destruct (emit_at_spec text line col cd ld typ n l Hi Hn) as (l' & He & Hi' & R).
+  exists l'. split; [exact He|]. split; [split; [exact Hi'|eapply ib_emit; eauto]|exact R].
+Qed.
+Lemma emit_specB text typ n l :
+  INVB text l -> n <= len l -> n = 0 \/ is_close typ = false ->
+  exists l', emit typ n l = Ok l' /\ INVB text l' /\ (l_base l' = l_base l + n /\ l_tidx l' = l_tidx l - n)
+             /\ l_src l' = drop n (l_src l) /\ len l' = len l - n
+             /\ l_line l' = l_line l /\ l_col l' = l_col l /\ l_cdev l' = l_cdev l /\ l_ldev l' = l_ldev l
+             /\ l_ctx l' = l_ctx l /\ l_ctxs l' = l_ctxs l.
+Proof. apply emit_at_specB. Qed.
+Lemma emitc_specB text typ n l :
+  INVB text l -> n <= len l -> n = 0 \/ is_close typ = false ->
+  exists l', emitc typ n l = Ok l' /\ INVB text l' /\ (l_base l' = l_base l + n /\ l_tidx l' = l_tidx l - n)
+             /\ l_src l' = drop n (l_src l) /\ len l' = len l - n.
+Proof.
+  intros Hi Hn Hc. destruct (emit_specB text typ n l Hi Hn Hc) as (l' & He & Hi' & Hb & Hs & Hl & _).
+  unfold emitc. rewrite He. simpl. eexists. split; [reflexivity|].
+  split; [eapply same_core_INVB; [|exact Hi']; repeat split|].
+  split; [exact Hb|]. split; [exact Hs|]. exact Hl.
+Qed.
+
+(* keywords and identifiers are not closing delimiters *)
+Lemma bassoc_forall {A} (P : A -> bool) (l : list (bytes * A)) k v :
+  forallb (fun kv => P (snd kv)) l = true -> bassoc l k = Some v -> P v = true.
+Proof.
+  induction l as [|[k' v'] r IH]; simpl; [discriminate|]. intros H. apply andb_prop in H. destruct H as [H1 H2].
+  destruct (bytes_eqb k' k); [intros E; injection E as <-; exact H1|apply IH, H2].
+Qed.
+Lemma kw_nonclose id : is_close (kw_lookup id) = false.
+Proof.
+  unfold kw_lookup. destruct (bassoc gen_keywords_template id) as [t|] eqn:E; [|reflexivity].
+  assert (H : forallb (fun kv => negb (is_close (snd kv))) gen_keywords_template = true) by reflexivity.
+  apply (bassoc_forall (fun t => negb (is_close t)) _ _ _ H) in E. apply negb_true_iff in E. exact E.
+Qed.
+
+Local Notation INV := INVB.
+Local Notation ext := extB.
+Local Notation ext_refl := extB_refl.
+Local Notation ext_trans := extB_trans.
+Local Notation same_core_INV := same_core_INVB.
+Local Notation INV_len := INVB_len.
+Local Notation advance_spec := advance_specB.
+Local Notation emit_at_spec := emit_at_specB.
+Local Notation emit_spec := emit_specB.
+Local Notation emitc_spec := emitc_specB.
+Local Notation prog := progB.
+Local Notation prog_ext := progB_extB.
 
 Ltac gs := repeat match goal with
   | H : get (l_src ?l) ?i = Some _ |- _ =>
@@ -57,7 +133,7 @@ Proof.
     + apply len_fuel.
   - intros [p cols] [H1 H2]. simpl in H1, H2.
     destruct (N.ltb_spec (len l) p); [lia|].
-    destruct (emit_spec text (kw_lookup (take p (l_src l))) p l Hi H2) as (l' & He & Hi' & Hb & _).
+    destruct (emit_spec text (kw_lookup (take p (l_src l))) p l Hi H2 (or_intror (kw_nonclose _))) as (l' & He & Hi' & Hb & _).
     rewrite He. simpl. split; [eapply same_core_INV; [|exact Hi']; auto with sc|]. simpl. lia.
 Qed.
 
@@ -122,7 +198,7 @@ Proof.
     + simpl. lia.
     + apply len_fuel.
   - intros [p cols] [H1 H2]. simpl in H1, H2.
-    destruct (emit_spec text gen_tokenInterpretedString (p + 1) l Hi ltac:(lia)) as (l' & He & Hi' & Hb & _).
+    destruct (emit_spec text gen_tokenInterpretedString (p + 1) l Hi ltac:(lia) ltac:(auto)) as (l' & He & Hi' & Hb & _).
     rewrite He. simpl. split; [eapply same_core_INV; [|exact Hi']; auto with sc|]. simpl. lia.
 Qed.
 
@@ -159,7 +235,7 @@ Proof.
     assert (Hl1 : len l1 = len l) by (apply same_core_len; exact Hs).
     assert (Hi1 : INV text l1) by (eapply same_core_INV; eauto).
     pose proof (proj1 (proj2 Hs)) as Hb1.
-    destruct (emit_at_spec text (l_line l) (l_col l) (l_cdev l) (l_ldev l) gen_tokenRawString (p + 1) l1 Hi1 ltac:(lia))
+    destruct (emit_at_spec text (l_line l) (l_col l) (l_cdev l) (l_ldev l) gen_tokenRawString (p + 1) l1 Hi1 ltac:(lia) ltac:(auto))
       as (l' & He & Hi' & Hb & _).
     rewrite He. simpl. split; [exact Hi'|lia].
 Qed.
@@ -200,7 +276,7 @@ Proof.
   - intros [p wide] Hp. simpl in Hp. apply andm_safe; [|intros _; simpl; exact He].
     intros Hpl. b2p. apply idx_is_safe; [exact Hpl|]. intros x Hx.
     destruct (x =? 39); [|simpl; exact He]. cbn [negb].
-    destruct (emit_spec text gen_tokenRune (p + 1) l Hi ltac:(lia)) as (l' & Hem & Hi' & Hb & _).
+    destruct (emit_spec text gen_tokenRune (p + 1) l Hi ltac:(lia) ltac:(auto)) as (l' & Hem & Hi' & Hb & _).
     rewrite Hem. simpl. split; [|destruct wide; simpl; lia].
     eapply same_core_INV; [|exact Hi']. destruct wide; repeat split.
 Qed.
@@ -330,17 +406,17 @@ Proof.
     + exact J0.
     + apply len_fuel.
   - intros st [Hp1 Hp2]. cbn beta.
-    assert (Hemit : forall typ n, 1 <= n -> n <= len l ->
+    assert (Hemit : forall typ n, is_close typ = false -> 1 <= n -> n <= len l ->
               safe (let* l1 := emit typ n l in Ok (addcol n l1)) (prog text l) (ext text l)).
-    { intros typ n Hn1 Hn2. destruct (emit_spec text typ n l Hi Hn2) as (l' & Hem & Hi' & Hb & _).
+    { intros typ n Hnc Hn1 Hn2. destruct (emit_spec text typ n l Hi Hn2 (or_intror Hnc)) as (l' & Hem & Hi' & Hb & _).
       rewrite Hem. simpl. split; [eapply same_core_INV; [|exact Hi']; auto with sc|simpl; lia]. }
     sstep; [sstep; destruct (x =? 95); [simpl; exact He|]|];
     (destruct (N.eqb_spec (n_p st) 0); [lia|]; sstep;
      match goal with |- context [if ?b then Err l else _] => destruct b end; [simpl; exact He|];
      match goal with |- context [if ?b then Err l else _] => destruct b end; [simpl; exact He|];
      sstep; [sstep; destruct (x0 =? 105) || idtac|]).
-    all: try (apply Hemit; b2p; gs; lia).
-    all: repeat sstep; try (simpl; exact He); try (apply Hemit; b2p; gs; lia).
+    all: try (apply Hemit; [try reflexivity; destruct (n_dot st || negb (n_exp st =? 0)); reflexivity| |]; b2p; gs; lia).
+    all: repeat sstep; try (simpl; exact He); try (apply Hemit; [try reflexivity; destruct (n_dot st || negb (n_exp st =? 0)); reflexivity| |]; b2p; gs; lia).
     all: exfalso; b2p; lia.
 Qed.
 End NumProofs.
@@ -363,9 +439,9 @@ Ltac closing_tac :=
   unfold closing; repeat match goal with |- context [if ?b then _ else _] => destruct b end; fin.
 
 Lemma opk_safe endt typ n e s :
-  INV text (c_l s) -> 1 <= n -> n <= len (c_l s) -> safe (opk typ n e s) (cpost endt s) (ext text (c_l s)).
+  INV text (c_l s) -> 1 <= n -> n <= len (c_l s) -> is_close typ = false -> safe (opk typ n e s) (cpost endt s) (ext text (c_l s)).
 Proof.
-  intros Hi Hn1 Hn2. unfold opk. destruct (emitc_spec text typ n (c_l s) Hi Hn2) as (l' & He & Hi' & Hb & _).
+  intros Hi Hn1 Hn2 Hnc. unfold opk. destruct (emitc_spec text typ n (c_l s) Hi Hn2 (or_intror Hnc)) as (l' & He & Hi' & Hb & _).
   rewrite He. simpl. split; [split; [exact Hi'|lia]|reflexivity].
 Qed.
 
@@ -373,7 +449,7 @@ Lemma auto_semi_safe e l :
   INV text l -> exists l', auto_semi e l = Ok l' /\ INV text l' /\ (l_base l' = l_base l /\ l_tidx l' = l_tidx l) /\ len l' = len l.
 Proof.
   intros Hi. unfold auto_semi. destruct e; [|exists l; split; [reflexivity|]; split; [exact Hi|]; split; [split; reflexivity|reflexivity]].
-  destruct (emit_spec text gen_tokenSemicolon 0 l Hi ltac:(lia)) as (l' & He & Hi' & Hb & _ & Hl & _).
+  destruct (emit_spec text gen_tokenSemicolon 0 l Hi ltac:(lia) ltac:(auto)) as (l' & He & Hi' & Hb & _ & Hl & _).
   exists l'. split; [exact He|]. split; [exact Hi'|]. split; [lia|lia].
 Qed.
 
@@ -381,7 +457,7 @@ Lemma auto_semi_dev_safe e l :
   INV text l -> exists l', auto_semi_dev e l = Ok l' /\ INV text l' /\ (l_base l' = l_base l /\ l_tidx l' = l_tidx l) /\ len l' = len l.
 Proof.
   intros Hi. unfold auto_semi_dev. destruct e; [|exists l; split; [reflexivity|]; split; [exact Hi|]; split; [split; reflexivity|reflexivity]].
-  destruct (emit_at_spec text (l_line l) (l_col l) true true gen_tokenSemicolon 0 l Hi ltac:(lia)) as (l' & He & Hi' & Hb & _ & Hl & _).
+  destruct (emit_at_spec text (l_line l) (l_col l) true true gen_tokenSemicolon 0 l Hi ltac:(lia) ltac:(auto)) as (l' & He & Hi' & Hb & _ & Hl & _).
   exists l'. split; [exact He|]. split; [exact Hi'|]. split; [lia|lia].
 Qed.
 
@@ -531,7 +607,7 @@ Proof.
         apply opk_safe; auto; fin. }
     destruct (x =? 61); apply opk_safe; auto; fin.
   - (* left brace *)
-    destruct (emitc_spec text gen_tokenLeftBrace 1 (c_l s) Hi Hl1) as (l1 & H1 & Hi1 & Hb1 & _).
+    destruct (emitc_spec text gen_tokenLeftBrace 1 (c_l s) Hi Hl1 ltac:(auto)) as (l1 & H1 & Hi1 & Hb1 & _).
     rewrite H1, bind_ok. simpl. destruct (endt =? gen_tokenRightBraces); simpl; (split; [split; [exact Hi1|lia]|reflexivity]).
   - (* right brace *)
     eapply safe_bind with (Q' := fun r => match r with Some s1 => c_l s1 = c_l s /\ c_ret s1 = c_ret s
